@@ -537,6 +537,10 @@ func expandRequestData(testCase *conformancev1.TestCase) error {
 				padding := make([]byte, delta)
 				bytesVal = append(bytesVal, padding...)
 			} else {
+				if int64(len(bytesVal)) < -delta {
+					return fmt.Errorf("request message #%d: can't shrink to %d bytes; it is %d bytes without any padding",
+						i+1, totalSize, int64(size)-int64(len(bytesVal)))
+				}
 				bytesVal = bytesVal[:len(bytesVal)+int(delta)]
 			}
 			reflectReq.Set(field, protoreflect.ValueOfBytes(bytesVal))
